@@ -403,6 +403,10 @@ namespace Pistache
 
     void Address::init(const std::string& addr)
     {
+        // the host goes to C interfaces, which stop at a NUL: "1.2.3.4\0junk" is not 1.2.3.4
+        if (addr.find('\0') != std::string::npos)
+            throw std::invalid_argument("Invalid address");
+
         AddressParser parser(addr);
         const int family = parser.family();
 
